@@ -757,20 +757,75 @@ func (g *G) Op() Op {
 		q := g.Query()
 		q.Limit, q.Reverse = nil, false
 		q.Consumer = pickU(g, []string{"collect", "assign"}, "snapconsumer")
+		shape := g.pct("snapshape")
+		switch {
+		case shape < 22:
+			// a parent that matches every object
+			p := docPathIndex["I64"]
+			if ip := g.cfg.IndexedPaths(); len(ip) > 0 && g.pct("allidx") < 70 {
+				p = pickU(g, ip, "allpath")
+			}
+			v := Val{K: "i", I: -987654321}
+			switch {
+			case p.Time:
+				v = Val{K: "t", T: time.Date(1999, 9, 9, 9, 9, 9, 9, time.UTC)}
+			case p.Class == ClsUint:
+				v = Val{K: "u", U: 987654321}
+			case p.Class == ClsFloat:
+				v = Val{K: "f", F: -98765.4321}
+			case p.Class == ClsStr:
+				v = Val{K: "s", S: "no-such-value-987654321"}
+			}
+			q.Leaves = []Leaf{{Path: p.Path, Op: "!=", V: v}}
+		case shape < 45:
+			// a parent that is itself the product of an Or
+			q.Leaves = []Leaf{g.Leaf(""), g.Leaf("or")}
+		}
+		tagged := shape >= 22 && shape < 36
+		var tagVals []string
+		if tagged {
+			// ... over disjoint tag-like values of one string path: (P=v1 or P=v2), then
+			// siblings "or P=v3" (before the writes) and "or P=v4" (after an insert of v4)
+			perm := rapid.Permutation([]string{"a", "b", "A", "ab", "B", ""}).Draw(g.t, "tagvals")
+			tagVals = perm[:4]
+			q.Leaves = []Leaf{{Path: "S", Op: "=", V: Val{K: "s", S: tagVals[0]}}, {Conn: "or", Path: "S", Op: "=", V: Val{K: "s", S: tagVals[1]}}}
+		}
 		op.Q = q
 		op.Aux = map[string]interface{}{}
-		if g.pct("derive") < 45 {
-			op.Aux["derive"] = g.Leaf(pickU(g, []string{"or", "or", "and"}, "dconn"))
+		orParent := len(q.Leaves) == 2 && q.Leaves[1].Conn == "or"
+		if g.pct("derive") < 60 {
+			c := pickU(g, []string{"or", "or", "and"}, "dconn")
+			if orParent {
+				c = "or"
+			}
+			op.Aux["derive"] = g.Leaf(c)
 		}
-		if g.pct("derive2") < 45 {
-			op.Aux["derive2"] = g.Leaf(pickU(g, []string{"or", "and", "and"}, "dconn2"))
+		if g.pct("derive2") < 60 {
+			c := pickU(g, []string{"or", "and", "and"}, "dconn2")
+			if orParent {
+				c = "or"
+			} else if shape < 22 {
+				c = "and"
+			}
+			op.Aux["derive2"] = g.Leaf(c)
+		}
+		if tagged {
+			op.Aux["derive"] = Leaf{Conn: "or", Path: "S", Op: "=", V: Val{K: "s", S: tagVals[2]}}
+			op.Aux["derive2"] = Leaf{Conn: "or", Path: "S", Op: "=", V: Val{K: "s", S: tagVals[3]}}
+			d := g.Doc()
+			d.S = tagVals[3]
+			op.Sub = append(op.Sub, Op{Op: "insert", D: d})
 		}
 		n := 1 + g.uni(6, "nsub")
 		burst := g.pct("burst") < 20 // many inserts: exceed the slice capacity
+		pairs := g.pct("pairs") < 35 // as many removals as insertions
 		for i := 0; i < n; i++ {
 			kind := pickU(g, []string{"insert", "insert", "insert", "update", "update", "delete", "delete", "resurrect", "many"}, "subkind")
 			if burst {
 				kind = "insert"
+			}
+			if pairs {
+				kind = []string{"delete", "insert"}[i%2]
 			}
 			sub := Op{Op: kind}
 			switch kind {
